@@ -64,6 +64,9 @@ int skinny128_parallel_ecb_init(Skinny128ParallelECB_t *ecb)
     Skinny128Key_t *ctx;
     if (!ecb)
         return 0;
+    ecb->vtable = 0;
+    ecb->ctx = 0;
+    ecb->parallel_size = 0;
     if ((ctx = calloc(1, sizeof(Skinny128Key_t))) == NULL)
         return 0;
     ecb->vtable = 0;
